@@ -330,6 +330,17 @@ func resolveUpstreamConfig(service *ServiceConfig, override string) (*UpstreamCo
 		src = &UpstreamConfig{}
 	}
 
+	// options are overridden option by option: merging the blocks below would otherwise
+	// replace the default block's options wholesale as soon as the cluster block has any
+	if dst.RouteConfig.Options != nil && src.RouteConfig.Options != nil {
+		options := *dst.RouteConfig.Options
+		err := mergo.Merge(&options, *src.RouteConfig.Options, mergo.WithOverride)
+		if err != nil {
+			return nil, err
+		}
+		src.RouteConfig.Options = &options
+	}
+
 	err := mergo.Merge(dst, *src, mergo.WithOverride)
 	if err != nil {
 		return nil, err
